@@ -15,13 +15,16 @@ CHECKS = {
         technique="runtime monitoring: real generation + import in a fresh fork, generated methods driven against a graphql-core reference server under scripted worlds; parallel-walk oracle over response vs returned model",
         text="For seeded schemas/operations/configurations the real CLI generates a package which is imported and called against a reference executor whose "
              "resolvers script every runtime type, nulls and list lengths with unique-token values. The returned object is walked in parallel with the response "
-             "(key exposure, value equality, enum members, __typename literal membership at abstract positions) and dumped back by alias for a round-trip comparison.",
+             "(key exposure, value equality, enum members, __typename literal membership at abstract positions) and dumped back by alias for a round-trip comparison. "
+             "Besides the seeded generators (incl. fragments using variables, server-defined directives, type extensions, merged selections, type conditions on the "
+             "position's own abstract type) the repository's example projects and a dense sample of fragment-usage graphs over a fixed schema are run.",
         note=GEN_NOTE, design="4/C01"),
     "C02": dict(
         category="exploration",
         technique="runtime monitoring: transport-boundary capture of the sent document; AST-equality oracle against the authored document after undoing the two documented rewrites; full-rule validation with graphql-core",
         text="The query text and operationName captured at the transport for every generated method are parsed, validated against the harness-built schema with "
-             "all specified rules and compared node by node (names, aliases, argument value ASTs, directives, variable definitions, fragment closure) with what the user wrote.",
+             "all specified rules and compared node by node (names, aliases, argument value ASTs, directives, variable definitions, fragment closure) with what the user wrote; "
+             "fragment-usage graphs (which fragment is a base, unpacked, or reached only through another differs per operation) are sampled densely in both definition orders.",
         note=GEN_NOTE, design="4/C02"),
     "C03": dict(
         category="exploration",
@@ -109,7 +112,8 @@ CHECKS = {
              "six bundled client variants; every captured request is decoded and compared with an expectation the generator computed in parallel, and the "
              "variants are compared pairwise. 32 concurrent calls on one client are run under asyncio and thread schedules (with yield injection); each "
              "request must equal the one the same call sends in isolation and each response must reach its caller. Observed interleavings are counted. Call sequences "
-             "on one client share the caller's kwargs objects (some naming a Content-Type), retry with the same Upload from wherever the stream was left, and start from sniffed streams.",
+             "on one client share the caller's kwargs objects (some naming a Content-Type), retry with the same Upload from wherever the stream was left, and start from sniffed streams. "
+             "Caller headers come in every form httpx documents (dict, pairs, httpx.Headers, read-only mapping, lower-case names).",
         note="Trusted: httpx.MockTransport, requests_toolbelt multipart decoder. Schedules are sampled, not enumerated.",
         design="4/C11",
     ),
@@ -127,7 +131,7 @@ CHECKS = {
         technique="runtime monitoring: trace checker (reference protocol state machine) over frames sent/yielded by the real execute_ws on every scripted frame sequence up to the bound; real websockets server on loopback",
         text="All server frame sequences up to length 4 (quick) / 5 (thorough) over the 10 frame kinds of the statement are fed through a scripted "
              "connection to the real execute_ws of the plain and OpenTelemetry clients (tracer absent/recording); sends, yields and terminal outcome "
-             "are compared with a reference state machine (extra frame classes: JSON non-objects, falsy data, error frames with an empty or absent payload). The handshake is also run against a real websockets server on 127.0.0.1.",
+             "are compared with a reference state machine (extra frame classes: JSON non-objects, falsy data, error frames with an empty or absent payload, partial results carrying errors or extensions next to data). The handshake is also run against a real websockets server on 127.0.0.1.",
         note="Trusted: the scripted connection mirrors websockets' contract; a second connection_ack is treated as outside the statement.",
         design="4/C13",
     ),
@@ -136,7 +140,7 @@ CHECKS = {
         technique="runtime monitoring: builder expressions produced by reflection over the generated builder modules; captured document validated and executed by graphql-core (resolvers record received arguments), shape compared with the expression, and each expression rebuilt after unrelated operations in the same process (history-freedom as a pair of executions)",
         text="For seeded schemas generated with enable_custom_operations, 10-24 expression trees per schema (several top-level fields, sub-fields to depth 3, aliases, .on() "
              "for union/interface members, arguments incl. explicit None) are built from the generated field objects; each captured document must validate against the "
-             "schema (argument values include falsy ones; a returned type or union member without builder class is reported; operations that fail while being built are part of the history), have the expression's shape and GraphQL names, deliver the caller's argument values to the reference resolvers, omit None arguments, and be "
+             "schema (argument values include falsy ones; a returned type or union member without builder class is reported; operations that fail while being built are part of the history), have the expression's shape and GraphQL names, declare every variable with exactly the type of the argument it is bound to, deliver the caller's argument values to the reference resolvers, omit None arguments, and be "
              "identical when rebuilt after the other expressions were built and sent.",
         note=GEN_NOTE + " The three listed defect mechanisms are switched on one at a time in separate cases so that the clean region is explored densely.",
         design="4/C14"),
